@@ -21,6 +21,12 @@ CHECKS = {
  "C17": ("exploration", "bounded-exhaustive execution with an ap/pc monitor over the relocated trace (shadow call stack) plus a static tiling check of statement ranges",
          "For every dynamic call instance in every run the measured ap movement is compared with function_ap_change; every trace pc must fall in exactly one recorded statement range on an instruction boundary; ranges must tile the code. Millions of dynamic call instances per quick run.",
          "Call/ret convention fixed on the unmodified tree; both ap-change solvers; functions with unknown ap change are not judged.", "DESIGN.md §3 C17"),
+ "C06": ("exploration", "exhaustive operand enumeration (all 65 536 pairs for 8-bit types, full boundary cross products for wider types) of a generated operation table, each op compiled and run through the whole pipeline against a big-integer model",
+         "Every (operation, type) of the table is a tiny Cairo function run on the real VM; results are compared with num-bigint arithmetic, and panic/None/overflow flags must occur exactly when the mathematical result does not fit. 8-bit sub-spaces are covered completely (~3 million runs in the quick tier).",
+         "The table lists the corelib trait surface named in the rule; operands for >8-bit types are the boundary sets.", "DESIGN.md §3 C06"),
+ "C07": ("exploration", "exhaustive operand enumeration over a const-evaluable expression alphabet x 6 evaluator entry shapes; three-way differential (const item vs folded function vs opaque-argument function) on the real compiler and VM",
+         "For each instance the same expression is evaluated by the semantic const evaluator (a const item), by the lowering constant folder (literal operands, folding on and off) and by the libfuncs at run time (opaque arguments); diagnostics on the const item must appear iff the run-time twin panics, and all defined values must agree.",
+         "Diagnostics are attributed by line; E2127 (unsupported in const context) is outside the property's domain and only counted.", "DESIGN.md §3 C07"),
  "C09": ("exploration", "bounded-exhaustive input enumeration on the real front end (all token strings up to length n, all single-point mutants of corpus files, nesting depth sweep)",
          "Every text of the enumerated spaces is pushed through parser, formatter and full semantic+lowering diagnostics under catch_unwind, a fatal-signal handler (stack overflow/abort) and a watchdog; no sampling. Totality is a universally quantified 'never crashes' claim, so the strongest practical evidence is exhaustion of a small-scope input space.",
          "Texts outside the enumerated alphabets/bounds are not covered; 8 MiB stack and a 30 s watchdog stand for 'stack overflow on ordinary nesting' and 'loops forever'.", "DESIGN.md §3 C09"),
